@@ -335,6 +335,32 @@ func runG1(e *env) {
 			e.checkGet(propForGet(e), st.Get.NI, st.Get.All, spb.AFTType(st.Get.AFT))
 		case "badget":
 			e.badGet(st.Get)
+		case "leave":
+			// an EARLIER session that is still connected goes away (half-close or cancel) while the current primary
+			// may be holding operations: those stay the primary's and must still be answered when they resolve
+			for _, o := range e.sess {
+				if o != cur && o != bystander && o.mc != nil && !o.dead && !o.closed {
+					if st.A == 0 {
+						o.mc.CloseSend()
+					} else {
+						o.mc.Stream().Cancel()
+						o.dead, o.termChecked = true, true // (ended by the client itself: no verdict on how the RPC ended)
+					}
+					o.closed = true
+					simrt.AwaitQuiescence("third-party-leaves")
+					if st.A == 0 {
+						e.drainAndProcess(o)
+					}
+					e.probe("an earlier session left while the current primary was at work")
+					for _, r := range e.allOps {
+						if r.state == opHeld && r.sess == cur.idx {
+							e.probe("an earlier session left while the current primary held operations")
+							break
+						}
+					}
+					break
+				}
+			}
 		case "handover":
 			if cur == nil {
 				cur = e.openSession(elec, cfg.FIBAck)
@@ -360,6 +386,7 @@ func runG1(e *env) {
 					e.report("C05", "reported-id-not-max", "election response to the primary raising its own id", fmt.Sprintf("announced %v, server reported %v", elec, got), false)
 				}
 				cur.elec, e.maxElec = elec, elec
+				e.primarySess, e.primaryKnown = cur.idx, true
 				e.processResults(cur, rest)
 				e.probe("primary raised its own election id")
 				continue
@@ -370,7 +397,12 @@ func runG1(e *env) {
 				simrt.AwaitQuiescence("handover-close")
 				e.drainAndProcess(cur)
 			}
-			elec[1]++
+			if st.A != 3 {
+				elec[1]++
+			} else {
+				// the new session announces the SAME id: the tie moves the role to it, the old session stays connected
+				e.probe("primary handed over by a tie on the election id")
+			}
 			cur = e.openSession(elec, cfg.FIBAck)
 			e.probe("primary handed over")
 			for _, r := range e.allOps {
@@ -502,7 +534,9 @@ func (e *env) modify(s *session, st *Step) {
 		}
 	}
 	if len(post) > 0 {
+		e.noAlign = true
 		e.processResults(s, []*spb.ModifyResponse{{Result: post}})
+		e.noAlign = false
 	}
 	e.afterQuiescence(s)
 	e.altPayload, e.ambigKeys = nil, nil
